@@ -22,7 +22,7 @@ static const Profile g_profiles[] = {
     {"GEN", {60, 80, 15, 15, 5, 2, 80, 50, 10, 10, 15, 10, 15, 5, 3, 25, 15, 5, 5, 20, 120, 40, 5, 30, 15, 15, 10, 8, 8, 3, 3, 2, 6}, 20, 110, 40, 0, 0, 15},
     {"C10", {40, 80, 5, 5, 2, 0, 90, 30, 3, 3, 15, 5, 5, 2, 1, 40, 10, 1, 1, 10, 320, 10, 15, 10, 60, 15, 20, 2, 2, 1, 1, 1, 25}, 30, 120, 20, 0, 0, 5},
     {"C11", {30, 50, 5, 5, 2, 0, 160, 100, 40, 40, 50, 40, 60, 15, 10, 70, 50, 20, 20, 10, 80, 10, 3, 20, 30, 20, 5, 3, 3, 1, 1, 1, 30}, 30, 120, 20, 1, 0, 5},
-    {"C12", {90, 150, 40, 40, 15, 1, 90, 80, 5, 5, 10, 8, 5, 3, 2, 20, 10, 2, 2, 10, 80, 10, 15, 10, 25, 40, 5, 10, 10, 3, 2, 1, 5}, 20, 120, 30, 0, 0, 10},
+    {"C12", {90, 150, 40, 40, 15, 1, 90, 80, 5, 5, 10, 8, 5, 3, 2, 20, 10, 2, 2, 10, 80, 10, 15, 10, 25, 40, 5, 10, 10, 3, 2, 1, 20}, 20, 120, 30, 0, 0, 10},
     {"C13", {150, 30, 10, 30, 5, 2, 10, 10, 2, 2, 3, 2, 3, 1, 1, 3, 2, 1, 1, 5, 20, 5, 1, 5, 2, 10, 5, 5, 80, 2, 1, 1, 1}, 12, 60, 90, 1, 0, 20},
     {"C14", {120, 30, 5, 20, 20, 8, 10, 10, 2, 2, 10, 2, 10, 5, 3, 3, 2, 1, 1, 10, 60, 10, 1, 5, 5, 5, 60, 2, 5, 1, 1, 3, 3}, 12, 70, 30, 1, 0, 5},
     {"C15", {40, 50, 5, 5, 2, 0, 30, 20, 5, 5, 5, 5, 3, 1, 1, 5, 3, 2, 2, 60, 60, 250, 3, 20, 3, 5, 5, 3, 3, 1, 6, 25, 2}, 20, 100, 20, 1, 0, 5},
@@ -254,6 +254,8 @@ static Step gen_op(Rng& r, const Profile& P, int client, int nh, const Plan& pla
 // Stratified sweep for C12 (enumeration, stated as such in the evidence): every sequence of length <= 4 over the
 // alphabet {INIT a, INIT b, SELECT a, SELECT b, SET, GET, re-INIT a with another solution}, in both precisions.
 static const uint64_t kC12EnumCount = 2 * (7 + 49 + 343 + 2401);
+// the thorough tier walks on through lengths 5 and 6 (blocks are ordered by length, so the first kC12EnumCount indices are the same)
+static const uint64_t kC12EnumMax = 2 * (7 + 49 + 343 + 2401 + 16807 + 117649);
 static Plan gen_plan_c12enum(uint64_t seed, uint64_t run_index) {
   Rng r(seed);
   Plan p;
@@ -262,7 +264,7 @@ static Plan gen_plan_c12enum(uint64_t seed, uint64_t run_index) {
   static const int amw[] = {2, 4, 4, 3};
   p.alloc_mode = r.pickw(std::vector<int>(amw, amw + 4));
   p.alloc_seed = r.next() | 1;
-  uint64_t idx = run_index % kC12EnumCount;
+  uint64_t idx = run_index % kC12EnumMax;
   Client cl;
   cl.prec = (int)(idx & 1);
   idx >>= 1;
